@@ -64,6 +64,7 @@ func runC02(r *Run) {
 		maxClients: scale(6, 8), arrivals: []time.Duration{0, ms, 2 * ms, 3 * ms}, holds: []time.Duration{0, ms, 2 * ms, time.Second},
 		qTimeouts: []time.Duration{ms, 2 * ms, 3 * ms, time.Second}, bTimeouts: []time.Duration{0, ms, time.Hour},
 		deadlines: []time.Duration{2 * ms, 5 * ms, time.Hour}, cancelPct: 30, cancelOnReleasePct: 35, cancelTimes: []time.Duration{0, ms, 2 * ms, 3 * ms},
+		ctxDeadlinePct: 15, ctxDeadlines: []time.Duration{ms / 2, ms + ms/2, 2*ms + ms/2, 700 * ms}, // caller contexts with their own deadline (some already expired on arrival), off the 1 ms grid
 		backlogs: []int{1, 2, 4}, limits: []int{1, 2, 3}, relTimes: []time.Duration{0, ms, 2 * ms, 3 * ms},
 	})
 	if sc == nil {
@@ -129,6 +130,7 @@ func runC12(r *Run) {
 		maxClients: scale(7, 9), arrivals: []time.Duration{0, 0, ms, 2 * ms}, holds: []time.Duration{0, ms, 2 * ms},
 		qTimeouts: []time.Duration{ms, 2 * ms, 3 * ms, time.Second}, bTimeouts: []time.Duration{time.Second},
 		cancelPct: 25, cancelOnReleasePct: 35, cancelTimes: []time.Duration{ms, 2 * ms, 3 * ms},
+		ctxDeadlinePct: 15, ctxDeadlines: []time.Duration{ms / 2, ms + ms/2, 2*ms + ms/2, 700 * ms},
 		backlogs: []int{1, 2, 3, 4, 1, 2, 3, -1, 0}, limits: []int{1, 2}, relTimes: []time.Duration{0, ms, 2 * ms, 3 * ms},
 		queueOnly: true,
 	})
@@ -183,7 +185,8 @@ func runC12(r *Run) {
 					s.Fail("wait-with-full-backlog", sc.cfg.Key(), "an Acquire arriving with the backlog full (%d/%d) was not refused immediately (blocked=%v returned=%v granted=%v) [%s]", pre.blocked, maxB, op.Blocked, cl.returned, cl.granted, sc.cfg)
 				}
 			case free <= 0 && pre.blocked < maxB:
-				if !op.Blocked && !(cl.canceled.Load() && sc.cfg.Evict) {
+				ctxExpired := cl.spec.ctxDeadline > 0 && int64(cl.spec.ctxDeadline) <= op.CallT // the caller's context deadline had passed on arrival
+				if !op.Blocked && !((cl.canceled.Load() || ctxExpired) && sc.cfg.Evict) {
 					s.Fail("refused-with-backlog-room", sc.cfg.Key(), "an Acquire arriving at the limit with backlog %d/%d neither waited nor was granted (returned=%v granted=%v) [%s]", pre.blocked, maxB, cl.returned, cl.granted, sc.cfg)
 				}
 			}
@@ -221,7 +224,7 @@ func runC13(r *Run) {
 		kinds: []string{"queue", "queue", "deadline", "deadline", "blocking", "lifo-ctor", "fifo-ctor", "pool"}, strategies: []string{"simple", "precise"},
 		maxClients: 4, arrivals: []time.Duration{0, ms, 2 * ms}, holds: []time.Duration{0, ms},
 		qTimeouts: []time.Duration{1, ms, 2 * ms, time.Hour, 0}, bTimeouts: []time.Duration{0, time.Hour},
-		deadlines: []time.Duration{0, ms, 2 * ms, 5 * time.Second, -ms},
+		deadlines: []time.Duration{0, ms, 2 * ms, 5 * time.Second, -ms, DeadlineZeroTime},
 		cancelPct: 50, cancelTimes: []time.Duration{0, ms, 2 * ms, 3 * ms},
 		backlogs: []int{10}, limits: []int{1, 2}, relTimes: []time.Duration{ms, 2 * ms, 3 * ms, 2*ms - 1, 2*ms + 1},
 		preHeldAll: !variantC, noReleases: !variantB,
@@ -300,9 +303,10 @@ func c13End(r *Run, sc *scen, variantB, isQueue, isBlocking bool) func() {
 	return func() {
 		end := s.Now()
 		for i, cl := range sc.clients {
-			if cl.acq == nil || cl.tk.Lagged {
+			if cl.acq == nil {
 				continue
 			}
+			lagged := cl.tk.Lagged // exact instants are not judged (its lateness may be the scheduler's doing); never returning is
 			arrive := cl.acq.CallT
 			const never = int64(1) << 62
 			bound := never
@@ -341,6 +345,14 @@ func c13End(r *Run, sc *scen, variantB, isQueue, isBlocking bool) func() {
 			}
 			who := func() string {
 				return "caller " + itoa(i) + " (arrived " + fmtDur(arrive) + ", bound " + fmtDur(bound) + ")"
+			}
+			if lagged {
+				// a delayed caller comes back late, but it comes back: the run has ended because nothing can happen any
+				// more (hours of virtual time passed idle), so a caller still inside Acquire is blocked without any bound
+				if !cl.returned && bound != never && !s.Truncated && end >= bound+int64(2*time.Hour) {
+					s.Fail("blocked-past-bound", cfg.Key()+"/never-returns", "%s was delayed in the middle of Acquire and then never returned: still blocked at %s with nothing left that could wake it [%s]", who(), fmtDur(end), cfg)
+				}
+				continue
 			}
 			if cl.returned && !cl.granted {
 				if !cl.acq.Blocked && cl.acq.RetT == arrive {
@@ -458,6 +470,44 @@ func runC19(r *Run) {
 			}
 		})
 	}
+	// callers that come back: as many looping callers as the backlog bound leaves room for next to the burst
+	// (callers in total never exceed limit + backlog), each acquiring, holding and releasing several times
+	loopers := 0
+	if room := limit + backlog - len(sc.clients); room > 0 && t.Chance(50, "looping-callers") {
+		loopers = 1 + t.Intn(room, "loopers")
+	}
+	loopDone := make([]int, loopers)
+	loopRounds := make([]int, loopers)
+	for li := 0; li < loopers; li++ {
+		li := li
+		loopRounds[li] = 2 + t.Intn(3, "loop-rounds")
+		start := []time.Duration{0, ms, 2 * ms}[t.Intn(3, "loop-start")]
+		var holds, pauses []time.Duration
+		for k := 0; k < loopRounds[li]; k++ {
+			holds = append(holds, []time.Duration{0, ms, 2 * ms}[t.Intn(3, "loop-hold")])
+			pauses = append(pauses, []time.Duration{0, 0, ms}[t.Intn(3, "loop-pause")])
+		}
+		s.Go("looping-caller", func(tk *Task) {
+			tk.Sleep(start)
+			for k := 0; k < loopRounds[li]; k++ {
+				tk.Begin("acquire", "loop")
+				l, ok := sc.st.Lim.Acquire(sc.st.PartCtx(tk.Ctx, ""))
+				tk.End(ok)
+				if !ok || l == nil {
+					s.Fail("caller-refused", cfg.Key(), "looping caller %d was refused in round %d at %s although callers never exceed limit + backlog and every holder releases within milliseconds [%s]", li, k, fmtDur(s.Now()), cfg)
+					return
+				}
+				sc.st.Out.Add(1)
+				tk.Sleep(holds[k])
+				tk.Begin("complete", "success")
+				sc.st.Out.Add(-1)
+				l.OnSuccess()
+				tk.End(nil)
+				loopDone[li]++
+				tk.Sleep(pauses[k])
+			}
+		})
+	}
 	s.OnQuiescent = func() {
 		if out := sc.st.Out.Load(); out > int64(cfg.Limit) {
 			s.Fail("over-admission", cfg.Key(), "%d tokens are held at once but the pool limit is %d [%s]", out, cfg.Limit, cfg)
@@ -479,6 +529,15 @@ func runC19(r *Run) {
 				s.Fail("caller-refused", cfg.Key(), "caller %d (arrived %s) was refused at %s although every holder releases well within the backlog timeout and the backlog bound was respected [%s]", i, fmtDur(cl.acq.CallT), fmtDur(cl.acq.RetT), cfg)
 				return
 			}
+		}
+		for li := range loopDone {
+			if loopDone[li] != loopRounds[li] {
+				s.Fail("caller-never-served", cfg.Key(), "looping caller %d completed %d of %d rounds and is stuck [%s]", li, loopDone[li], loopRounds[li], cfg)
+				return
+			}
+		}
+		if loopers > 0 {
+			r.Probe("looping_callers")
 		}
 		if serialDone != serialRounds {
 			s.Fail("caller-never-served", cfg.Key(), "the serial caller completed %d of %d rounds and is stuck although nobody else uses the pool [%s]", serialDone, serialRounds, cfg)
